@@ -23,7 +23,10 @@ TYPES = [
     ("uint32", 1, 13, 0), ("date", 1, 6, 0), ("int64", 2, None, 0), ("uint64", 2, 14, 0), ("ts_ms", 2, 9, 0), ("ts_us", 2, 10, 0),
     ("time_us", 2, 8, 0), ("float", 4, None, 0), ("double", 5, None, 0), ("bytes", 6, None, 0), ("utf8", 6, 0, 0), ("flba", 7, None, 5),
     ("int96", 3, None, 0),
+    # DECIMAL (converted type 5, scale 2) over every physical type the format allows for it
+    ("dec_i32", 1, 5, 0), ("dec_i64", 2, 5, 0), ("dec_flba", 7, 5, 5), ("dec_ba", 6, 5, 0),
 ]
+DEC_SCALE = 2
 
 
 def gen_value(rng, name, small=False):
@@ -58,6 +61,15 @@ def gen_value(rng, name, small=False):
         return rng.choice(["", "a", "bb", "é", "long string here", "ß∂"]).encode("utf8")
     if name == "flba":
         return bytes(rng.randrange(256) for _ in range(5))
+    if name.startswith("dec_"):
+        v = rng.choice([0, 1, -1, 12345, -7, rng.randrange(-10 ** 8, 10 ** 8)])
+        if name == "dec_i32":
+            return v % (1 << 32)
+        if name == "dec_i64":
+            return (v * rng.choice([1, 10 ** 6])) % (1 << 64)
+        if name == "dec_flba":
+            return v.to_bytes(5, "big", signed=True)
+        return v.to_bytes(rng.choice([(v.bit_length() + 8) // 8, 8]), "big", signed=True)
     if name == "int96":
         ns = rng.randrange(0, 86400 * 10 ** 9)
         day = 2440588 + rng.randrange(0, 20000)
@@ -96,6 +108,15 @@ def logical(name, cell):
         return ("y", cell.hex())
     if name == "utf8":
         return ("s", cell.decode("utf8"))
+    if name.startswith("dec_"):
+        # fastparquet's documented form of a decimal is float64: unscaled integer x 10^-scale
+        if name == "dec_i32":
+            v = cell - (1 << 32) if cell >= (1 << 31) else cell
+        elif name == "dec_i64":
+            v = cell - (1 << 64) if cell >= (1 << 63) else cell
+        else:
+            v = int.from_bytes(cell, "big", signed=True)
+        return ("dec", v)
     if name == "int96":
         b = cell.to_bytes(12, "little")
         ns, day = struct.unpack("<qI", b)
@@ -116,7 +137,7 @@ def canon_read(v):
     return c
 
 
-def read_isolated(path):
+def read_isolated(path, **pf_kw):
     """read the file with fastparquet in a forked child: ('ok', df) | ('refused', msg) | ('raised', kind, msg, tb) | ('crash', signo)"""
     import pickle
     r, w = os.pipe()
@@ -126,7 +147,7 @@ def read_isolated(path):
         try:
             import fastparquet
             try:
-                df = fastparquet.ParquetFile(path).to_pandas()
+                df = fastparquet.ParquetFile(path, **pf_kw).to_pandas()
                 out = ("ok", df)
             except NotImplementedError as e:
                 out = ("refused", str(e)[:60])
@@ -148,7 +169,7 @@ def read_isolated(path):
 NS = [0, 1, 7, 8, 9, 17, 40, 100]
 CODEC_NAMES = ["UNCOMPRESSED", "UNCOMPRESSED", "SNAPPY", "GZIP", "ZSTD", "BROTLI", "LZ4_RAW"]
 DICTABLE = [t for t in TYPES if t[0] != "int96"]
-DELTA_TYPES = [t for t in TYPES if t[1] in (1, 2)]
+DELTA_TYPES = [t for t in TYPES if t[1] in (1, 2) and t[2] != 5]
 
 
 def plan(rng, quick):
@@ -245,7 +266,8 @@ def gen_file(rng, idx, fam, t, forced):
             cells.append(gen_value(rng, tname, small))
     md = 1 if optional else 0
     name = f"c_{tname}"
-    col = sw.Column([name.encode()], ptype, md, 0, [((md if c is not None else 0), 0, c) for c in cells], converted=conv, type_length=tlen)
+    col = sw.Column([name.encode()], ptype, md, 0, [((md if c is not None else 0), 0, c) for c in cells], converted=conv, type_length=tlen,
+                    scale=DEC_SCALE if conv == 5 else None, precision=(9 if ptype == 1 else 18 if ptype == 2 else 12 if ptype == 7 else 19) if conv == 5 else None)
     rid = sw.Column([b"rid"], 2, 0, 0, [(0, 0, r) for r in range(n)])
     ch = {"codec": rng.choice(CODEC_NAMES), "v2": rng.random() < 0.4, "def_runs": rng.choice(["rle", "bp", "mix"]),
           "page_bounds": sorted(rng.sample(range(1, max(n, 2)), min(rng.choice([0, 0, 1, 2, 3]), max(n - 1, 0)))) if n > 1 else [],
@@ -344,67 +366,80 @@ def run(ctx, report):
         report.stream("file.encode")
         report.count("family:" + fam)
         report.count("type:" + tname)
-        res = read_isolated(path)
+        # the nullable-types option is a read option: whatever array type the integers / booleans land in, the VALUES are the file's
+        int_like = tname in ("bool", "int32", "int8", "int16", "uint8", "uint16", "uint32", "int64", "uint64")
+        variants = [("", {})] + ([(" [pandas_nulls=False]", {"pandas_nulls": False})] if int_like else [])
+        results = [(vn, read_isolated(path, **kw)) for vn, kw in variants]
         os.remove(path)
-        if res[0] == "refused":
-            report.count("refused:" + res[1][:30])
-            continue
-        if res[0] == "raised" and "not implemented" in str(res[2]):
-            report.count("refused:" + str(res[2])[:30])
-            continue
-        if res[0] in ("raised", "crash"):
-            what = ("reading a valid file raised " + " ".join(map(str, res[1:]))) if res[0] == "raised" else \
-                f"the interpreter crashed (signal {res[1]}) while reading a valid file"
-            report.violation({**rec, "what": what[:400], "outcome": res[0],
-                              "sig": f"{res[0]}:{fam}:{tname}:{str(res[2])[:25] if res[0] == 'raised' else res[1]}"})
-            continue
-        got = res[1]
-        probs = []
-        flba_nul = False
-        for cname, (tn, cells) in intended.items():
-            if cname not in got.columns:
-                probs.append(f"column {cname} missing")
-                continue
-            s = got[cname]
-            vals = list(s.astype(object))
-            if len(vals) != len(cells):
-                probs.append(f"{cname}: {len(vals)} rows read, {len(cells)} encoded")
-                continue
-            bad, nul_only = [], True
-            for i, (c, v) in enumerate(zip(cells, vals)):
-                e = logical(tn, c)
-                g = canon_read(v)
-                if e[0] == "f" and g[0] == "f":
-                    same = e[1] == g[1] or float.fromhex(e[1]) == float.fromhex(g[1]) or \
-                        (math.isnan(float.fromhex(e[1])) and math.isnan(float.fromhex(g[1])))
-                elif e[0] == "i" and g[0] == "f":
-                    same = float.fromhex(g[1]) == e[1] and abs(e[1]) < 2 ** 53
-                elif e[0] == "b" and g[0] == "i":
-                    same = bool(g[1]) == e[1]
-                elif e[0] == "b" and g[0] == "f":
-                    same = float.fromhex(g[1]) == float(e[1])
-                else:
-                    same = e == g
-                if not same:
-                    bad.append(f"{cname} ({tn}) row {i}: file encodes {e}, read gives {g}")
-                    if not (tn == "flba" and e[0] == "y" and g[0] == "y" and e[1].endswith("00")
-                            and bytes.fromhex(e[1]).rstrip(b"\0") == bytes.fromhex(g[1])):
-                        nul_only = False
-            if bad:
-                probs.append(bad[0] + (f" (+{len(bad) - 1} more rows)" if len(bad) > 1 else ""))
-                if nul_only:
-                    flba_nul = True
-            kind = str(s.dtype)
-            want = {"bool": ("bool", "boolean"), "int32": ("int32", "Int32"), "int8": ("int8", "Int8"), "int16": ("int16", "Int16"),
-                    "uint8": ("uint8", "UInt8"), "uint16": ("uint16", "UInt16"), "uint32": ("uint32", "UInt32"), "int64": ("int64", "Int64"),
-                    "uint64": ("uint64", "UInt64"), "float": ("float32",), "double": ("float64",)}.get(tn)
-            if want and kind not in want and len(cells):
-                probs.append(f"{cname}: dtype {kind}, the schema implies {want[0]}")
-        if probs:
-            report.violation({**rec, "what": "; ".join(probs)[:500], "outcome": "wrong", "flba_trailing_nul_only": flba_nul and len(probs) == 1,
-                              "sig": f"wrong:{fam}:{tname}:" + ("dtype" if "dtype" in probs[0] else "value")})
+        for vname, res in results:
+            check_read(report, rec, res, intended, fam, tname, vname)
     report.extra["files_not_certified"] = uncertified
     report.extra["files_certified"] = len(work) - uncertified
+
+
+def check_read(report, rec, res, intended, fam, tname, vname):
+    """fastparquet must have read exactly the intended table, or refused"""
+    if res[0] == "refused":
+        report.count("refused:" + res[1][:30])
+        return
+    if res[0] == "raised" and "not implemented" in str(res[2]):
+        report.count("refused:" + str(res[2])[:30])
+        return
+    if res[0] in ("raised", "crash"):
+        what = (f"reading a valid file{vname} raised " + " ".join(map(str, res[1:]))) if res[0] == "raised" else \
+            f"the interpreter crashed (signal {res[1]}) while reading a valid file"
+        report.violation({**rec, "what": what[:400], "outcome": res[0],
+                          "sig": f"{res[0]}:{fam}:{tname}:{str(res[2])[:25] if res[0] == 'raised' else res[1]}"})
+        return
+    got = res[1]
+    probs = []
+    flba_nul = False
+    for cname, (tn, cells) in intended.items():
+        if cname not in got.columns:
+            probs.append(f"column {cname} missing")
+            continue
+        s = got[cname]
+        vals = list(s.astype(object))
+        if len(vals) != len(cells):
+            probs.append(f"{cname}: {len(vals)} rows read, {len(cells)} encoded")
+            continue
+        bad, nul_only = [], True
+        for i, (c, v) in enumerate(zip(cells, vals)):
+            e = logical(tn, c)
+            g = canon_read(v)
+            if e[0] == "f" and g[0] == "f":
+                same = e[1] == g[1] or float.fromhex(e[1]) == float.fromhex(g[1]) or \
+                    (math.isnan(float.fromhex(e[1])) and math.isnan(float.fromhex(g[1])))
+            elif e[0] == "dec":
+                # float64 result: the nearest doubles to v / 10^scale are accepted (the one place floats are compared, with a relative bound)
+                same = g[0] == "f" and math.isclose(float.fromhex(g[1]), e[1] / 10 ** DEC_SCALE, rel_tol=1e-12, abs_tol=1e-300) or \
+                    (g[0] == "i" and e[1] % 10 ** DEC_SCALE == 0 and g[1] == e[1] // 10 ** DEC_SCALE)
+            elif e[0] == "i" and g[0] == "f":
+                same = float.fromhex(g[1]) == e[1] and abs(e[1]) < 2 ** 53 or (bool(vname) and float.fromhex(g[1]) == float(e[1]))
+            elif e[0] == "b" and g[0] == "i":
+                same = bool(g[1]) == e[1]
+            elif e[0] == "b" and g[0] == "f":
+                same = float.fromhex(g[1]) == float(e[1])
+            else:
+                same = e == g
+            if not same:
+                bad.append(f"{cname} ({tn}) row {i}: file encodes {e}, read gives {g}")
+                if not (tn == "flba" and e[0] == "y" and g[0] == "y" and e[1].endswith("00")
+                        and bytes.fromhex(e[1]).rstrip(b"\0") == bytes.fromhex(g[1])):
+                    nul_only = False
+        if bad:
+            probs.append(bad[0] + (f" (+{len(bad) - 1} more rows)" if len(bad) > 1 else ""))
+            if nul_only:
+                flba_nul = True
+        kind = str(s.dtype)
+        want = {"bool": ("bool", "boolean"), "int32": ("int32", "Int32"), "int8": ("int8", "Int8"), "int16": ("int16", "Int16"),
+                "uint8": ("uint8", "UInt8"), "uint16": ("uint16", "UInt16"), "uint32": ("uint32", "UInt32"), "int64": ("int64", "Int64"),
+                "uint64": ("uint64", "UInt64"), "float": ("float32",), "double": ("float64",)}.get(tn)
+        if want and kind not in want and len(cells) and not vname:
+            probs.append(f"{cname}: dtype {kind}, the schema implies {want[0]}")
+    if probs:
+        report.violation({**rec, "read_options": vname.strip(), "what": (vname.strip() + " " + "; ".join(probs))[:500].strip(), "outcome": "wrong", "flba_trailing_nul_only": flba_nul and len(probs) == 1,
+                          "sig": f"wrong:{fam}:{tname}:" + ("dtype" if "dtype" in probs[0] else "value") + vname.strip()})
 
 
 def search(ctx, report):
